@@ -27,7 +27,8 @@ RULE = ("A logical history (per segment: ordered active channels with index, chu
         "segment without metadata, data type change -> TdmsFile.read must raise. Non-trivial: the plan differs from "
         "the explicit encoding in at least one segment and the file carries data (or a forbidden file)."
         ' Truncated equivalence: with the same number of raw bytes missing at the end of the file, the compressed '
-        'encoding must read like the explicit one (eager and lazy).')
+        'encoding must read like the explicit one (eager and lazy).'
+        ' A further job encodes 100-140-segment twin-channel files in compressed form.')
 ASSUMPTIONS = [
     "vf/plans.py encodes the TDMS inheritance rules (index persists, list carries over without the flag, metadata-less "
     "segment repeats the previous one) - validated against the pinned reader by construction of this check",
